@@ -1,9 +1,11 @@
-(** Effects, part 1: polls, pause / resume / dispose and creation preserve the graph
-    invariant [Inv0] (effects whose bodies do not write signals; effects that write are
-    handled separately). *)
+(** Effects, part 1: what one iteration of an effect's task loop preserves.  The body of an
+    effect runs as a frame on top of the graph invariant; between "notification consumed" and
+    "body started" the effect itself is exempted ([InvBut]).  Effect bodies here do not write
+    signals ([pure_effects]). *)
 From Coq Require Import List ZArith Bool Arith Lia.
 From LV Require Import Reactive.Graph Reactive.Effects Reactive.GraphLemmas Reactive.GraphInvariant
-                       Reactive.GraphMarkProofs Reactive.GraphPullBase Reactive.GraphPullSteps
+                       Reactive.GraphMarkProofs Reactive.GraphMarkOrigin Reactive.GraphQueueProofs
+                       Reactive.GraphPullBase Reactive.GraphPullSteps
                        Reactive.GraphPullDefs Reactive.GraphPullEval Reactive.GraphPullRead
                        Reactive.GraphPullMemo Reactive.GraphPullProofs Reactive.GraphProofs.
 Import ListNotations.
@@ -18,12 +20,17 @@ Notation effb := (effb p).
 Notation sigb := (sigb p).
 Notation WF := (WF p).
 Notation Inv := (Inv p).
-Notation InvW := (InvW p).
+Notation InvBut := (InvBut p).
 Notation Inv0 := (Inv0 p).
+Notation Rest := (Rest p).
+Notation Frame := (Frame p).
+Notation Lcur := (Lcur p).
+Notation Lclean := (Lclean p).
 Notation cur := (cur p).
 Notation PullRel := (PullRel p).
 Notation USpec := (USpec p).
 Notation RSpec := (RSpec p).
+Notation queue_ok := (queue_ok p).
 
 (* effect bodies (and watch handlers) that do not write *)
 Definition pure_effects : Prop :=
@@ -58,37 +65,90 @@ Proof.
   unfold GraphInvariant.effb, decl_of in H. rewrite nth_overflow in H by auto. discriminate.
 Qed.
 
-(* the body of a node that is not a memo has finished: it is an ordinary node again *)
+Definition hasrun (s : state) (e : nat) : bool := hasrun_n (decl_of p e) (getn s e).
+
+(* ---------------------------------------------------------------- frames of effects *)
+(* the body of an effect has finished: the effect is an ordinary node again *)
 Lemma Inv_pop e stk t s :
-  Inv (e :: stk) t s -> L1 s e -> memob e = false -> Inv stk t s.
+  Inv (e :: stk) t s -> L1 s e -> effb e = true -> Inv stk t s.
 Proof.
-  intros [Iw Iv] HL Hm. split.
-  - destruct Iw. split; auto.
-    + intros i Hi. destruct (Nat.eq_dec i e) as [->|Hie]; auto. apply inv_l1. intros [H|H]; auto.
-    + intros i Hmi Hi. apply inv_memo_c; auto. intros [H|H]; auto. congruence.
-    + intros k Hk. apply inv_run_cur. right; auto.
-    + intros k Hk. apply inv_run_clean. right; auto.
-    + intros k x Hk. apply inv_run_src. right; auto.
-    + intros k Hk. apply inv_run_ge. right; auto.
-    + intros k Hk. apply inv_run_range. right; auto.
-    + intros k Hk. apply inv_run_nc. right; auto.
-  - intros i Hmi Hi. apply Iv; auto. intros [H|H]; auto. congruence.
+  intros I HL He. destruct (effb_decl p e He) as (k & b & h & Hd).
+  destruct (inv_frame _ _ _ _ I e (or_introl eq_refl)) as (F1&F2&_&_&_&_&F7).
+  split; try apply I.
+  - intros i Hi. destruct (Nat.eq_dec i e) as [->|Hie].
+    + split; auto. unfold uncached_ok, GraphInvariant.will_run, will_run_n. rewrite Hd.
+      split; auto. split; auto. split; auto. intros (_&_&Hdt). rewrite (F7 He) in Hdt. discriminate.
+    + apply I. intros [H|H]; auto.
+  - intros x Hx. apply I. right; auto.
 Qed.
 
-(* ---------------------------------------------------------------- a body of an effect runs *)
-Definition run_body (first : bool) (e : nat) (c : ctx) (body : expr) (s : state) : state * Z :=
-  eval p (read_any p) true c body (begin_run first e (clear_sources e s)).
-
-Lemma eff_body_spec first e body s s' v :
-  Inv0 s -> effb e = true -> expr_ok p e false body ->
-  run_body first e (Some e, true) body s = (s', v) ->
-  Inv0 s' /\ PullRel (S e) [] None s s' /\ Lcur p s' e /\ Lclean p s' e /\
-  subs (getn s' e) = subs (getn s e).
+(* an effect at rest whose log is current and whose memo sources are Clean can be pushed *)
+Lemma Inv_push e s :
+  Inv0 s -> effb e = true -> Lcur s e -> Lclean s e -> edirty (getn s e) = false ->
+  Inv [e] e s.
 Proof.
-  intros I He Hok Hr. unfold run_body in Hr.
+  intros I He Hc Hcl Hd. split; try apply I.
+  - intros i Hi. apply I. intros [].
+  - intros k [<-|[]]. destruct (inv_rest _ _ _ _ I e (fun x => x)) as (R1&_).
+    split; auto. split; auto. split.
+    { intros x Hx. left. rewrite <- R1. exact Hx. }
+    split; auto. split; [apply effb_lt; auto|]. split; auto.
+    intros Hm. rewrite (effb_not_memo e He) in Hm. discriminate.
+Qed.
+
+(* ---------------------------------------------------------------- updates of an exempted effect *)
+Definition core_same (n n' : node) : Prop :=
+  sval n' = sval n /\ subs n' = subs n /\ st n' = st n /\ cache n' = cache n /\ srcs n' = srcs n /\
+  rlog n' = rlog n /\ since n' = since n.
+
+Lemma InvBut_updn e f s :
+  InvBut e [] 0 s -> (forall n, core_same n (f n)) -> InvBut e [] 0 (updn e f s).
+Proof.
+  intros I Hf.
+  assert (Hoth : forall k, k <> e -> getn (updn e f s) k = getn s k) by (intros k Hk; apply getn_updn_other; auto).
+  assert (Hall : forall k, core_same (getn s k) (getn (updn e f s) k)).
+  { intros k. destruct (getn_updn_cases e f s k) as [[_ E]|E]; rewrite E; auto. unfold core_same; intuition. }
+  assert (Hcur : forall x, cur (updn e f s) x = cur s x).
+  { intros x. apply cur_view; apply Hall. }
+  split.
+  - apply (WF_same_edges p s (updn e f s)); [apply nlen_updn| |apply I].
+    intros k. destruct (Hall k) as (_&?&_&_&?&_). auto.
+  - apply I.
+  - apply I.
+  - intros i Hi Hie. apply (Rest_ext p s (updn e f s) i).
+    + rewrite (Hoth i Hie). apply nview_eq_refl.
+    + intros x v _. apply Hcur.
+    + intros x v _ _ Hc. destruct (Hall x) as (_&_&->&_). exact Hc.
+    + apply (ib_rest _ _ _ _ _ I i Hi Hie).
+  - intros _. unfold L1. destruct (Hall e) as (_&_&_&_&->&->&_). apply (ib_l1 _ _ _ _ _ I). intros [].
+  - intros x Hx. unfold GraphInvariant.queue_ok. rewrite ready_updn, (Hoth x Hx).
+    apply (ib_queue _ _ _ _ _ I x Hx).
+  - intros k [].
+Qed.
+
+Lemma InvBut_close e s : InvBut e [] 0 s -> Rest s e -> queue_ok s e -> Inv0 s.
+Proof.
+  intros I R Q. split; try apply I.
+  - intros i Hi. destruct (Nat.eq_dec i e) as [->|Hie]; auto. apply (ib_rest _ _ _ _ _ I i Hi Hie).
+  - intros x. destruct (Nat.eq_dec x e) as [->|Hx]; auto. apply (ib_queue _ _ _ _ _ I x Hx).
+Qed.
+
+Lemma InvBut_nil e t t' s : InvBut e [] t s -> InvBut e [] t' s.
+Proof. intros I. split; try apply I. intros k []. Qed.
+
+(* ---------------------------------------------------------------- a body of an effect runs *)
+Lemma eff_body_spec first e body s s' v :
+  InvBut e [] 0 s -> queue_ok s e -> effb e = true -> expr_ok p e false body ->
+  edirty (getn s e) = false ->
+  (first = true \/ since (getn s e) <> []) ->
+  eval p (read_any p) true (Some e, true) body (begin_run first e (clear_sources e s)) = (s', v) ->
+  Inv0 s' /\ PullRel (S e) [] None s s' /\ Lcur s' e /\ Lclean s' e /\
+  edirty (getn s' e) = false /\ subs (getn s' e) = subs (getn s e).
+Proof.
+  intros I Hq He Hok Hd Hcause Hr.
   assert (Hel : e < length p) by (apply effb_lt; auto).
   assert (Hnm : memob e = false) by (apply effb_not_memo; auto).
-  destruct (memo_begin p [] e first s (Inv_nil p 0 e s I)) as (Ic & L1c & Pc & Hsuc & _ & _ & _); auto.
+  destruct (memo_begin p [] e first s (InvBut_nil e 0 e s I) Hq) as (Ic & L1c & Pc & Hsuc & _ & _ & _ & _); auto.
   { intros k []. } { intros Hm; congruence. }
   set (sc := begin_run first e (clear_sources e s)) in *.
   rewrite (eval_aw (read_any p) body e (Some e, true) sc Hok) in Hr.
@@ -97,11 +157,201 @@ Proof.
   assert (Cc : ctx_ok [e] (Some e, true)) by (unfold ctx_ok; cbn; eauto).
   destruct (eval_spec p e (read_any p) HRe body (Some e, true) sc [e] e s' v Hok (le_n e) Ic Cc L1c Hr)
     as (Ie & L1e & Pe). cbn [fst] in Pe. unfold TopOK in L1e. cbn [fst] in L1e.
+  destruct (inv_frame _ _ _ _ Ie e (or_introl eq_refl)) as (F1&F2&_&_&_&_&F7).
   split; [apply (Inv_nil p e 0); eapply Inv_pop; eauto|].
   split.
   { eapply PullRel_trans; [exact Pc|]. apply PullRel_pop; auto. intros Hm; congruence. }
-  split; [apply Ie; left; auto|]. split; [apply Ie; left; auto|].
+  split; auto. split; auto. split; auto.
   destruct (pr_above2 _ _ _ _ _ _ Pe e (le_n e)) as (_&_&Hsu). congruence.
+Qed.
+
+(* effect-level fields no pull ever touches *)
+Definition eff_static (s s' : state) : Prop :=
+  (forall i, efirst (getn s' i) = efirst (getn s i) /\ epaused (getn s' i) = epaused (getn s i) /\
+             ealive (getn s' i) = ealive (getn s i) /\ edone (getn s' i) = edone (getn s i) /\
+             epoll (getn s' i) = epoll (getn s i)) /\
+  halted s' = halted s.
+
+Lemma eff_static_refl s : eff_static s s.
+Proof. split; auto. Qed.
+Lemma eff_static_trans a b c : eff_static a b -> eff_static b c -> eff_static a c.
+Proof.
+  intros [H1 G1] [H2 G2]. split; [|congruence].
+  intros i. specialize (H1 i). specialize (H2 i). intuition congruence.
+Qed.
+Lemma PullRel_static b stk ex s s' : PullRel b stk ex s s' -> eff_static s s'.
+Proof.
+  intros P. split; [|apply P]. intros i. destruct (pr_eff _ _ _ _ _ _ P i) as (?&?&?&?&?&?). auto.
+Qed.
+Lemma updn_static e f s :
+  (forall n, efirst (f n) = efirst n /\ epaused (f n) = epaused n /\ ealive (f n) = ealive n /\
+             edone (f n) = edone n /\ epoll (f n) = epoll n) ->
+  eff_static s (updn e f s).
+Proof.
+  intros Hf. split; auto. intros i.
+  destruct (getn_updn_cases e f s i) as [[_ E]|E]; rewrite E; auto.
+Qed.
+
+Lemma emit_static ev s : eff_static s (emit ev s).
+Proof. split; auto. Qed.
+
+(* ---------------------------------------------------------------- the handler of a watch *)
+Lemma eff_handler_spec e h s :
+  Inv0 s -> effb e = true -> expr_ok p e false h ->
+  Lcur s e -> Lclean s e -> edirty (getn s e) = false ->
+  let s' := eff_handler p e h s in
+  Inv0 s' /\ Lcur s' e /\ Lclean s' e /\ edirty (getn s' e) = false /\ eff_static s s'.
+Proof.
+  intros I He Hok Hc Hcl Hd. cbv zeta. unfold eff_handler.
+  set (s1 := emit (EvHStart e) s).
+  assert (I1 : Inv0 s1) by (apply Inv_emit; auto).
+  assert (I1' : Inv [e] e s1) by (apply Inv_push; auto).
+  destruct (eval p (read_any p) true (Some e, false) h s1) as [s2 v] eqn:Ev.
+  rewrite (eval_aw (read_any p) h e (Some e, false) s1 Hok) in Ev.
+  destruct (lvl_spec p wfp (N p)) as [_ HR].
+  assert (Hel : e < length p) by (apply effb_lt; auto).
+  assert (HRe : RSpec e (read_any p)) by (apply (RSpec_mono (N p) e); [unfold N; lia|exact HR]).
+  assert (Cc : ctx_ok [e] (Some e, false)) by (unfold ctx_ok; cbn; eauto).
+  assert (T1 : TopOK (Some e, false) s1).
+  { unfold TopOK; cbn. destruct (inv_rest _ _ _ _ I1 e (fun x => x)) as (R1&_). exact R1. }
+  destruct (eval_spec p e (read_any p) HRe h (Some e, false) s1 [e] e s2 v Hok (le_n e) I1' Cc T1 Ev)
+    as (I2 & T2 & P2). unfold TopOK in T2. cbn [fst] in T2.
+  destruct (inv_frame _ _ _ _ I2 e (or_introl eq_refl)) as (F1&F2&_&_&_&_&F7).
+  split; [apply Inv_emit; apply (Inv_nil p e 0); eapply Inv_pop; eauto|].
+  split; auto. split; auto. split; auto.
+  eapply eff_static_trans; [apply emit_static|].
+  eapply eff_static_trans; [eapply PullRel_static; exact P2|apply emit_static].
+Qed.
+
+(* ---------------------------------------------------------------- EffectInner::update_if_necessary *)
+Lemma any_plain_spec e : forall l s s1 ch,
+  e <= length p -> (forall x, In x l -> x < e) ->
+  Inv0 s -> any_plain p top_ctx l s = (s1, ch) ->
+  Inv0 s1 /\ PullRel e [] None s s1 /\
+  (ch = false -> forall x, In x l -> memob x = true -> st (getn s1 x) = Clean) /\
+  (ch = true -> exists x, In x l /\ forall k, In x (tracked_of (rlog (getn s1 k))) -> since (getn s1 k) <> []).
+Proof.
+  destruct (lvl_spec p wfp (N p)) as [HU _]. fold (upd_top p) in HU.
+  induction l as [|x l IH]; intros s s1 ch Hel Hl I Ha; cbn [any_plain] in Ha.
+  - inversion Ha; subst. split; auto. split; [apply PullRel_refl|]. split; [intros _ x []|discriminate].
+  - destruct (upd_top p top_ctx x s) as [s2 c2] eqn:EU.
+    assert (Hx : x < e) by (apply Hl; left; auto).
+    assert (HxN : x < N p) by (unfold N; lia).
+    destruct (HU top_ctx x s [] (N p) s2 c2 HxN HxN (Inv_nil p 0 (N p) s I) (ctx_ok_top) EU)
+      as (I2 & P2 & _ & Hcl & Hcs).
+    assert (I2' : Inv0 s2) by (eapply Inv_nil; eauto).
+    assert (P2' : PullRel e [] None s s2) by (eapply PullRel_weaken; [|exact P2]; lia).
+    destruct c2.
+    + inversion Ha; subst. split; auto. split; auto. split; [discriminate|].
+      intros _. exists x. split; [left; auto|]. apply Hcs; auto.
+    + destruct (IH s2 s1 ch Hel) as (I1 & P1 & Hn & Hy); auto.
+      { intros y Hy. apply Hl; right; auto. }
+      split; auto. split; [eapply PullRel_trans; eauto|]. split.
+      * intros Hf y [<-|Hy'] Hm; [|apply Hn; auto].
+        destruct (Hcl Hm) as [Hc2 _]. apply (pr_stable _ _ _ _ _ _ P1 x Hm); auto.
+      * intros Ht. destruct (Hy Ht) as (y & Hy1 & Hy2). exists y. split; auto. right; auto.
+Qed.
+
+Lemma eff_check_spec e s s' need :
+  Inv0 s -> effb e = true -> ealive (getn s e) = true -> epoll (getn s e) = true ->
+  eff_check p e s = (s', need) ->
+  eff_static s s' /\
+  rlog (getn s' e) = rlog (getn s e) /\ srcs (getn s' e) = srcs (getn s e) /\
+  edirty (getn s' e) = false /\ emissed (getn s' e) = false /\
+  (need = false -> Inv0 s' /\
+     forall x v, In (x, v, true) (rlog (getn s' e)) -> memob x = true -> st (getn s' x) = Clean) /\
+  (need = true -> InvBut e [] 0 s' /\ queue_ok s' e /\
+     (hasrun s' e = true -> since (getn s' e) <> [])).
+Proof.
+  intros I He Ha Hp Hc. unfold eff_check in Hc.
+  destruct (effb_decl p e He) as (k & b & h & Hd).
+  assert (Hel : e < length p) by (apply effb_lt; auto).
+  assert (Hei : e < nlen s) by (rewrite (wf_len p s (inv_wf _ _ _ _ I)); auto).
+  set (s0 := updn e (fun n => set_emissed n false) s) in *.
+  assert (E0 : getn s0 e = set_emissed (getn s e) false) by (apply getn_updn_same; auto).
+  assert (IB0 : InvBut e [] 0 s0).
+  { apply InvBut_updn; [apply Inv_InvBut; auto|]. intros n. unfold core_same; nsimpl; intuition. }
+  assert (S0 : eff_static s s0) by (apply updn_static; intros n; nsimpl; auto).
+  destruct (inv_rest _ _ _ _ I e (fun x => x)) as (R1 & R2 & R3 & R4 & R5).
+  assert (Hq0 : forall d, edirty (getn s0 e) = d -> queue_ok (updn e (fun n => set_edirty n false) s0) e).
+  { intros d _. unfold GraphInvariant.queue_ok, queue_ok_n. rewrite Hd.
+    rewrite getn_updn_same by (unfold s0; rewrite nlen_updn; auto). rewrite E0. nsimpl.
+    intros _. split; [discriminate|]. rewrite Hp. discriminate. }
+  destruct (edirty (getn s0 e)) eqn:Ed0.
+  - (* dirty: cleared, true *)
+    inversion Hc; subst s' need. clear Hc.
+    set (s1 := updn e (fun n => set_edirty n false) s0).
+    assert (E1 : getn s1 e = set_edirty (set_emissed (getn s e) false) false).
+    { unfold s1. rewrite getn_updn_same by (unfold s0; rewrite nlen_updn; auto). rewrite E0. reflexivity. }
+    split.
+    { eapply eff_static_trans; [exact S0|]. apply updn_static; intros n; nsimpl; auto. }
+    rewrite E1. nsimpl. split; auto. split; auto. split; auto. split; auto.
+    split; [discriminate|]. intros _. split.
+    { apply InvBut_updn; auto. intros n. unfold core_same; nsimpl; intuition. }
+    split; [apply (Hq0 true); auto|].
+    intros Hh. apply R5. unfold GraphInvariant.will_run, will_run_n. rewrite Hd.
+    rewrite E0 in Ed0. nsimpl. unfold hasrun in Hh. rewrite E1, Hd in Hh.
+    split; [auto|]. split; [destruct k; cbn in *; auto|auto].
+  - (* not dirty: the sources are checked with the observer hidden *)
+    assert (Ed : edirty (getn s e) = false) by (rewrite E0 in Ed0; exact Ed0).
+    assert (I0 : Inv0 s0).
+    { apply (InvBut_close e s0 IB0).
+      - unfold GraphInvariant.Rest, L1, uncached_ok, GraphInvariant.needs_cur, GraphInvariant.needs_clean,
+          GraphInvariant.will_run.
+        rewrite Hd, E0. cbn [needs_cur_n needs_clean_n will_run_n]. nsimpl.
+        split; [exact R1|]. split; [exact Logic.I|]. split; [|split].
+        + intros Hn. apply (Lcur_ext p s s0 e); [rewrite E0; reflexivity| |].
+          * intros x v _. apply cur_view; unfold s0; [apply (updn_field sval)|apply (updn_field cache)]; auto.
+          * apply R3. unfold GraphInvariant.needs_cur. rewrite Hd. exact Hn.
+        + intros (_&_&_&_&_&Hpf). rewrite Hp in Hpf. discriminate.
+        + intros (_&_&Hdt). rewrite Ed in Hdt. discriminate.
+      - unfold GraphInvariant.queue_ok, queue_ok_n. rewrite Hd, E0. nsimpl.
+        intros _. split; [rewrite Ed; discriminate|]. rewrite Hp. discriminate. }
+    destruct (any_plain p top_ctx (srcs (getn s0 e)) s0) as [s1 ch] eqn:Ea.
+    inversion Hc; subst s' need. clear Hc.
+    assert (Hsr0 : srcs (getn s0 e) = srcs (getn s e)) by (rewrite E0; reflexivity).
+    destruct (any_plain_spec e (srcs (getn s0 e)) s0 s1 ch ltac:(lia)) as (I1 & P1 & Hn & Hy); auto.
+    { intros x Hx. rewrite Hsr0 in Hx. eapply wf_srclt; eauto. apply I. }
+    destruct (pr_above _ _ _ _ _ _ P1 e (le_n e)) as (Hr1 & Hs1); [discriminate|].
+    assert (S1 : eff_static s0 s1) by (eapply PullRel_static; eauto).
+    assert (Hei1 : e < nlen s1).
+    { rewrite (wf_len p s1 (inv_wf _ _ _ _ I1)); auto. }
+    set (s2 := updn e (fun n => set_edirty n false) s1).
+    assert (E2 : getn s2 e = set_edirty (getn s1 e) false) by (apply getn_updn_same; auto).
+    assert (Hal1 : ealive (getn s1 e) = true).
+    { destruct S1 as [S1 _]. destruct (S1 e) as (_&_&->&_). rewrite E0. exact Ha. }
+    assert (Hpo1 : epoll (getn s1 e) = true).
+    { destruct S1 as [S1 _]. destruct (S1 e) as (_&_&_&_&->). rewrite E0. exact Hp. }
+    assert (Hmi1 : emissed (getn s1 e) = false).
+    { destruct (pr_eff _ _ _ _ _ _ P1 e) as (_&_&_&_&->&_). rewrite E0. reflexivity. }
+    split.
+    { eapply eff_static_trans; [exact S0|]. eapply eff_static_trans; [exact S1|].
+      apply updn_static; intros n; nsimpl; auto. }
+    rewrite E2. nsimpl. rewrite Hr1, Hs1, E0. nsimpl.
+    split; auto. split; auto. split; auto. split; auto.
+    assert (IB2 : InvBut e [] 0 s2).
+    { apply InvBut_updn; [apply Inv_InvBut; auto|]. intros n. unfold core_same; nsimpl; intuition. }
+    assert (Q2 : queue_ok s2 e).
+    { unfold GraphInvariant.queue_ok, queue_ok_n. rewrite Hd, E2. nsimpl.
+      intros _. split; [discriminate|]. rewrite Hpo1. discriminate. }
+    destruct (inv_rest _ _ _ _ I1 e (fun x => x)) as (Q1 & Q2' & Q3 & Q4 & Q5).
+    split.
+    + (* nothing changed *)
+      intros Hf. apply orb_false_elim in Hf as [-> Hdf].
+      assert (Hv : forall i, nview_eq (getn s1 i) (getn s2 i)).
+      { intros i. unfold s2. destruct (getn_updn_cases e (fun n => set_edirty n false) s1 i) as [[<- E]|E];
+          rewrite E; [|apply nview_eq_refl]. unfold nview_eq; nsimpl. rewrite Hdf. intuition. }
+      split.
+      * apply (Inv_views p [] 0 s1 s2); auto; try apply IB2.
+      * intros x v Hx Hm. unfold s2. rewrite (updn_field st) by auto.
+        apply (Hn eq_refl); auto. rewrite Hsr0. unfold L1 in R1. rewrite R1. apply in_tracked_of. eauto.
+    + intros Ht. split; auto. split; auto.
+      intros Hh. assert (Hh1 : hasrun s1 e = true).
+      { unfold hasrun in *. rewrite E2 in Hh. rewrite Hd in *. destruct k; cbn in *; auto. }
+      destruct ch.
+      * destruct (Hy eq_refl) as (x & Hx1 & Hx2). apply Hx2. unfold L1 in Q1. rewrite <- Q1, Hs1. exact Hx1.
+      * cbn in Ht. apply Q5. unfold GraphInvariant.will_run, will_run_n. rewrite Hd.
+        unfold hasrun in Hh1. rewrite Hd in Hh1. auto.
 Qed.
 
 End P.
